@@ -314,8 +314,6 @@ Qed.
 Theorem parse_terminates p : bytes_ok p -> parse_frames frame_table p <> Exn OutOfFuel.
 Proof. intros. apply parse_terminates_fuel; [assumption|lia]. Qed.
 
-Lemma skipn_skipn' {A} n a (d : list A) : skipn a (skipn n d) = skipn (n + a) d.
-Proof. revert d. induction n as [|n IH]; intros d; [reflexivity|]. destruct d; [rewrite !skipn_nil; reflexivity|]. cbn [skipn Nat.add]. apply IH. Qed.
 Lemma slice_skipn {A} (d : list A) n a b : 0 <= n -> 0 <= a -> slice (slice_from d n) a b = slice d (n + a) (n + b).
 Proof.
   intros Hn Ha. rewrite !slice_eq, slice_from_eq. rewrite skipn_skipn'. replace (n + b - (n + a)) with (b - a) by lia.
